@@ -105,11 +105,21 @@ def run(args):
     lines[m["line"]: m["line"] + m.get("span", 1)] = [m["new"]]
     open(p, "w").write("\n".join(lines))
     env = dict(os.environ, CARGO_NET_OFFLINE="true", CARGO_TARGET_DIR=os.path.join(w, "target"))
+    # own process group, killed as a whole on timeout: a mutant that hangs the tests leaves a spinning test binary behind
+    # when only cargo is killed (this cost most of a day's CPU once)
+    import signal
+    pr = subprocess.Popen(["cargo", "test", "--offline", "--lib", "--test", "cached_integration_test", "--test", "cached_concurrency_integration_test", "-q"],
+                          cwd=w, env=env, stdout=subprocess.PIPE, stderr=subprocess.STDOUT, text=True, start_new_session=True)
     try:
-        r = subprocess.run(["cargo", "test", "--offline", "--lib", "--test", "cached_integration_test", "--test", "cached_concurrency_integration_test", "-q"],
-                           cwd=w, env=env, stdout=subprocess.PIPE, stderr=subprocess.STDOUT, text=True, timeout=240)
+        out_, _ = pr.communicate(timeout=240)
     except subprocess.TimeoutExpired:
+        try:
+            os.killpg(pr.pid, signal.SIGKILL)
+        except ProcessLookupError:
+            pass
+        pr.wait()
         return dict(m, status="killed-timeout")
+    r = subprocess.CompletedProcess(pr.args, pr.returncode, out_, None)
     if r.returncode != 0:
         return dict(m, status="killed-build" if "error[" in r.stdout or "error:" in r.stdout and "test result" not in r.stdout else "killed-tests")
     import engine
